@@ -29,6 +29,9 @@ type c01Oracle struct {
 	gwaufSum  float64
 	overwrite bool
 	day       int
+	w         *World
+	wantDiff  float64
+	haveDiff  bool
 }
 
 func storage(g *G, k int) float64 {
@@ -44,6 +47,15 @@ func (o *c01Oracle) Probe(pt string, zeit, subd int, wdt float64, g *G, w *herme
 	case "daystart":
 		o.overwrite = zeit == o.measDay || zeit == g.MESS[g.MZ-1]
 	case "evatra":
+		// the reported daily net bottom flux (percolation minus capillary supply, written with yesterday's record) is the
+		// change of the two public counters over yesterday - also across the annual reset of the counters
+		if o.haveDiff && o.w != nil && o.w.Cfg.OutInterval == 1 && zeit == o.day+1 {
+			if math.Abs(g.SickerDailyDiff-o.wantDiff) > tol(o.wantDiff, g.SICKER, g.CAPSUM)*10 {
+				o.violate("public-counters", "reported-daily-percolation-differs-from-counters", o.day,
+					fmt.Sprintf("the record of %s reports a net bottom flux of %.12g mm for the day, the percolation and capillary-supply counters changed by %.12g mm", Day(o.day).ISO(), g.SickerDailyDiff, o.wantDiff), nil)
+			}
+			o.hit("reach.daily-percolation-figure-checked")
+		}
 		o.day = zeit
 		o.sDayStart = storage(g, 0)
 		o.wdtSum, o.steps, o.sumTP, o.sumQN, o.sumQD, o.gwaufSum = 0, 0, 0, 0, 0, 0
@@ -160,6 +172,8 @@ func (o *c01Oracle) Probe(pt string, zeit, subd int, wdt float64, g *G, w *herme
 					fmt.Sprintf("percolation+capillary counters changed by %.12g cm, bottom flux minus groundwater uptake is %.12g cm", dq, want), nil)
 			}
 		}
+		// (not on a measurement-overwrite day: the overwrite clears the counters in the middle of the day - outside the property's quantifier)
+		o.wantDiff, o.haveDiff = (g.SICKER-math.Abs(g.CAPSUM))-(o.sicker0-math.Abs(o.capsum0)), !o.overwrite
 		dd := (g.DRAISUM - o.drai0) / 10
 		if math.Abs(dd-o.sumQD) > tol(g.DRAISUM, o.drai0, o.sumQD)*10 {
 			o.violate("public-counters", "drain-counter-mismatch", zeit,
@@ -213,7 +227,7 @@ func init() {
 			return &Scenario{Prop: "C01", Kind: "single", World: w, Bug: genBug(r.Sub("bug", 0), false)}
 		},
 		Exec: func(sc *Scenario, env *Env) *Result {
-			o := &c01Oracle{}
+			o := &c01Oracle{w: sc.World}
 			o.init("C01")
 			o.measDay = int(sc.World.Meas.Day)
 			res, _ := runTrajectory(sc, env, nil, []Oracle{o}, nil)
